@@ -1,1 +1,219 @@
-//! cqlref::murmur3 - independent reference (see DESIGN.md 1.3). Owned by the builder of the property that needs it.
+//! cqlref::murmur3 - independent reference for C03 (see DESIGN.md 1.3).
+//!
+//! Written from Cassandra's `MurmurHash.hash3_x64_128` / `Murmur3Partitioner.getToken` and
+//! ScyllaDB's `cdc_partitioner`, one-shot over a contiguous buffer, unsigned 64-bit arithmetic
+//! with the sign extension of the tail bytes spelled out (Cassandra reads tail bytes as Java
+//! `byte`, i.e. signed, and widens them to `long` before shifting; the 16-byte blocks are
+//! assembled from bytes masked with 0xff, i.e. unsigned). Shares no code and no arithmetic
+//! style (no `Wrapping<i64>`, no streaming state) with the driver.
+
+const C1: u64 = 0x87c3_7b91_1142_53d5;
+const C2: u64 = 0x4cf5_ad43_2745_937f;
+
+fn fmix(mut k: u64) -> u64 {
+    k ^= k >> 33;
+    k = k.wrapping_mul(0xff51_afd7_ed55_8ccd);
+    k ^= k >> 33;
+    k = k.wrapping_mul(0xc4ce_b9fe_1a85_ec53);
+    k ^= k >> 33;
+    k
+}
+
+/// 8 little-endian bytes, each taken unsigned (Cassandra `getblock`).
+fn block(b: &[u8]) -> u64 {
+    let mut v = 0u64;
+    for (i, x) in b.iter().enumerate().take(8) {
+        v |= (*x as u64) << (8 * i);
+    }
+    v
+}
+
+/// Java `(long) byteValue`: sign-extending widening of a tail byte.
+fn widen_signed(b: u8) -> u64 {
+    if b >= 0x80 { 0xffff_ffff_ffff_ff00 | b as u64 } else { b as u64 }
+}
+
+/// Cassandra's MurmurHash3 x64-128 with seed 0; returns (h1, h2).
+pub fn hash3_x64_128(data: &[u8]) -> (u64, u64) {
+    let len = data.len();
+    let nblocks = len / 16;
+    let mut h1 = 0u64;
+    let mut h2 = 0u64;
+    for i in 0..nblocks {
+        let mut k1 = block(&data[16 * i..16 * i + 8]);
+        let mut k2 = block(&data[16 * i + 8..16 * i + 16]);
+        k1 = k1.wrapping_mul(C1).rotate_left(31).wrapping_mul(C2);
+        h1 ^= k1;
+        h1 = h1.rotate_left(27).wrapping_add(h2).wrapping_mul(5).wrapping_add(0x52dc_e729);
+        k2 = k2.wrapping_mul(C2).rotate_left(33).wrapping_mul(C1);
+        h2 ^= k2;
+        h2 = h2.rotate_left(31).wrapping_add(h1).wrapping_mul(5).wrapping_add(0x3849_5ab5);
+    }
+    let tail = &data[16 * nblocks..];
+    let mut k1 = 0u64;
+    let mut k2 = 0u64;
+    // the Java switch falls through from the highest tail index down; XOR is order independent,
+    // the shift of a sign-extended value is what matters
+    for (j, b) in tail.iter().enumerate() {
+        let w = widen_signed(*b);
+        if j >= 8 {
+            k2 ^= w << (8 * (j - 8));
+        } else {
+            k1 ^= w << (8 * j);
+        }
+    }
+    if tail.len() > 8 {
+        k2 = k2.wrapping_mul(C2).rotate_left(33).wrapping_mul(C1);
+        h2 ^= k2;
+    }
+    if !tail.is_empty() {
+        k1 = k1.wrapping_mul(C1).rotate_left(31).wrapping_mul(C2);
+        h1 ^= k1;
+    }
+    h1 ^= len as u64;
+    h2 ^= len as u64;
+    h1 = h1.wrapping_add(h2);
+    h2 = h2.wrapping_add(h1);
+    h1 = fmix(h1);
+    h2 = fmix(h2);
+    h1 = h1.wrapping_add(h2);
+    h2 = h2.wrapping_add(h1);
+    (h1, h2)
+}
+
+/// Standard (canonical, unsigned-tail) MurmurHash3 x64-128, seed 0. Only used to show in the
+/// evidence on which inputs the Cassandra variant differs from the textbook algorithm.
+pub fn hash3_x64_128_canonical_h1(data: &[u8]) -> u64 {
+    let len = data.len();
+    let nblocks = len / 16;
+    let (mut h1, mut h2) = (0u64, 0u64);
+    for i in 0..nblocks {
+        let k1 = block(&data[16 * i..16 * i + 8]).wrapping_mul(C1).rotate_left(31).wrapping_mul(C2);
+        let k2 = block(&data[16 * i + 8..16 * i + 16]).wrapping_mul(C2).rotate_left(33).wrapping_mul(C1);
+        h1 ^= k1;
+        h1 = h1.rotate_left(27).wrapping_add(h2).wrapping_mul(5).wrapping_add(0x52dc_e729);
+        h2 ^= k2;
+        h2 = h2.rotate_left(31).wrapping_add(h1).wrapping_mul(5).wrapping_add(0x3849_5ab5);
+    }
+    let tail = &data[16 * nblocks..];
+    let (mut k1, mut k2) = (0u64, 0u64);
+    for (j, b) in tail.iter().enumerate() {
+        if j >= 8 {
+            k2 |= (*b as u64) << (8 * (j - 8));
+        } else {
+            k1 |= (*b as u64) << (8 * j);
+        }
+    }
+    h2 ^= k2.wrapping_mul(C2).rotate_left(33).wrapping_mul(C1);
+    h1 ^= k1.wrapping_mul(C1).rotate_left(31).wrapping_mul(C2);
+    h1 ^= len as u64;
+    h2 ^= len as u64;
+    h1 = h1.wrapping_add(h2);
+    h2 = h2.wrapping_add(h1);
+    h1 = fmix(h1);
+    h2 = fmix(h2);
+    h1.wrapping_add(h2)
+}
+
+/// `Long.MIN_VALUE` is not a valid ring token; Cassandra/ScyllaDB map it to `Long.MAX_VALUE`.
+pub fn normalize(t: i64) -> i64 {
+    if t == i64::MIN { i64::MAX } else { t }
+}
+
+/// Token of the Murmur3 partitioner for an already framed partition key.
+pub fn murmur3_token(key: &[u8]) -> i64 {
+    normalize(hash3_x64_128(key).0 as i64)
+}
+
+/// The partition key bytes the server hashes: a single key column's bytes as they are; for a
+/// composite key every component as big-endian u16 length, bytes, one zero byte, in key order.
+/// `None` when a component of a composite key does not fit the 16-bit length (must be refused).
+pub fn partition_key_bytes(components: &[&[u8]]) -> Option<Vec<u8>> {
+    match components {
+        [] => Some(Vec::new()),
+        [one] => Some(one.to_vec()),
+        many => {
+            let mut out = Vec::new();
+            for c in many {
+                if c.len() > 0xffff {
+                    return None;
+                }
+                out.push((c.len() >> 8) as u8);
+                out.push((c.len() & 0xff) as u8);
+                out.extend_from_slice(c);
+                out.push(0);
+            }
+            Some(out)
+        }
+    }
+}
+
+/// ScyllaDB `cdc_partitioner`: the first 8 bytes of the key (a 16-byte stream id) read as a
+/// big-endian int64 and normalised like any token; a key that is too short gets the minimum
+/// token, whose long value is `i64::MIN` (returned raw, it is not a ring token).
+pub fn cdc_token(key: &[u8]) -> i64 {
+    if key.len() < 8 {
+        return i64::MIN;
+    }
+    let mut v = 0u64;
+    for b in &key[..8] {
+        v = (v << 8) | *b as u64;
+    }
+    normalize(v as i64)
+}
+
+/// Known-answer self-test. Vectors: the four strings pinned by the repo's
+/// `routing/partitioner.rs` unit tests (Murmur3 and CDC), plus the textbook MurmurHash3 x64-128
+/// known answers (empty input; "hello" -> cbd8a7b341bd9b02...; pure-ASCII inputs coincide with
+/// the canonical algorithm, which validates the block loop and finaliser independently of the
+/// repository). Returns Err(description) when the reference is wrong (exit 2 in the callers).
+pub fn self_test() -> Result<(), String> {
+    let pinned: [(&str, i64); 4] = [("test", -6017608668500074083), ("xd", 4507812186440344727), ("primary_key", -1632642444691073360), ("kremówki", 4354931215268080151)];
+    for (s, want) in pinned {
+        let got = murmur3_token(s.as_bytes());
+        if got != want {
+            return Err(format!("murmur3_token({s:?}) = {got}, pinned {want}"));
+        }
+    }
+    let cdc: [(&str, i64); 4] = [("test", i64::MIN), ("xd", i64::MIN), ("primary_key", 8102654598100187487), ("kremówki", 7742362231512463211)];
+    for (s, want) in cdc {
+        let got = cdc_token(s.as_bytes());
+        if got != want {
+            return Err(format!("cdc_token({s:?}) = {got}, pinned {want}"));
+        }
+    }
+    if hash3_x64_128(b"") != (0, 0) {
+        return Err("hash3_x64_128(\"\") != (0,0)".into());
+    }
+    // textbook MurmurHash3_x64_128("hello", seed 0) = cbd8a7b341bd9b025b1e906a48ae1d19
+    if hash3_x64_128(b"hello") != (0xcbd8_a7b3_41bd_9b02, 0x5b1e_906a_48ae_1d19) {
+        return Err(format!("hash3_x64_128(\"hello\") = {:x?}", hash3_x64_128(b"hello")));
+    }
+    // ASCII input of 37 bytes (2 blocks + 5 tail): variant == canonical
+    let ascii = b"The quick brown fox jumps over the la";
+    if hash3_x64_128(ascii).0 != hash3_x64_128_canonical_h1(ascii) {
+        return Err("variant differs from canonical on ASCII".into());
+    }
+    // a tail byte >= 0x80 must make the variant differ from the canonical algorithm
+    if hash3_x64_128(&[0x80]).0 == hash3_x64_128_canonical_h1(&[0x80]) {
+        return Err("signed-tail quirk has no effect on [0x80]".into());
+    }
+    // a byte >= 0x80 inside a full block must NOT (blocks are read unsigned)
+    let mut blk = [0x41u8; 16];
+    blk[3] = 0xfe;
+    if hash3_x64_128(&blk).0 != hash3_x64_128_canonical_h1(&blk) {
+        return Err("block bytes treated as signed".into());
+    }
+    if partition_key_bytes(&[b"ab", b""]) != Some(vec![0, 2, b'a', b'b', 0, 0, 0, 0]) {
+        return Err("composite framing".into());
+    }
+    Ok(())
+}
+
+#[cfg(test)]
+mod tests {
+    #[test]
+    fn known_answers() {
+        super::self_test().unwrap();
+    }
+}
